@@ -43,6 +43,7 @@ type item struct {
 	mine   bool
 }
 
+//go:norace
 func labelHash(prev uint64, label string) uint64 {
 	h := fnv.New64a()
 	var b [8]byte
